@@ -275,6 +275,10 @@ def _exp_cases(draw):
         big = [k / 2 for k in draw(st.lists(st.integers(-20, 20), min_size=lo_big, max_size=lo_big + 43))]
         o = dict(o, pos=big if shape == "few-neg" else small, neg=small if shape == "few-neg" else big,
                  mode="grid")
+    if fn == "simultaneous_joint_region_ci" and draw(st.integers(0, 5)) == 0:
+        # evaluation sets of billions of samples, nearly all of them easy (what easy samples are for)
+        which = draw(st.sampled_from(["ep", "en"]))
+        o = dict(o, **{which: draw(st.sampled_from([10**7, 10**9, 10**11, 10**12]))})
     sup = draw(_support(o["pos"] + o["neg"], spanning=(fn == "fixed_width_band_ci"), packed=bool(o.get("packed"))))
     method, strat = draw(st.sampled_from(BUILTIN))
     return dict(fn=fn, o=o, sup=sup, method=method, strat=strat, ci=draw(st.sampled_from(CI_METHODS)),
